@@ -250,7 +250,7 @@ Section InterpInv.
   Qed.
   Lemma inv_custom_att (body : M val) : INV body -> INV (custom_att LF crun body).
   Proof.
-    intros Hb s. unfold custom_att.
+    intros Hb s. unfold custom_att, with_fresh_T.
     destruct (inv_custom_inner body Hb (with_ts s fresh_t)) as [H1 H2 _]. cbn [with_ts ts fresh_t failed] in H2.
     constructor; cbn [w rd rpd nf reg post ts with_ts].
     - exact H1.
